@@ -22,6 +22,10 @@ signature over the same content.
   signature are untouched and the entries have the same signed view — the strings differ only inside
   bytes that the UTF-8 decoder classifies as invalid — which is the known finding
   (`KNOWN C07 payload-invalid-utf8-collision … field=…`); an untouched copy must verify.
+
+`TK alias kind verify` : the mutation of the preceding `T` line replayed on the same content created
+through the link-encrypting codec (the entry still carries its sealed-link additional data) and verified
+with that codec: same verdict as the ideal-signature model of the plain line.
 -/
 open Model Model.Json
 
@@ -36,6 +40,10 @@ structure SSt where
   known : Nat := 0
   checks : Std.HashMap String Nat := {}
   out : Array String := #[]
+  /-- the last `T` line: (alias, kind, predicted verdict of the ideal-signature model and
+      "no signed field changed", both for the entry as `Entry.Copy` normalises it — next/refs without repeats —
+      which is what the link-encrypting codec's `PreSign` signs) -/
+  lastT : Option (String × String × Bool × Bool) := none
 deriving Inhabited
 
 def SSt.emit (s : SSt) (m : String) : SSt := { s with out := s.out.push m }
@@ -117,6 +125,8 @@ def handleSign (s : SSt) (line : String) : SSt :=
       let s := if verify == "panic" then s.spec "verifyDoesNotPanic" false s!"{al} {kind}" else s
       -- specification on the implementation's answer
       let fields := changedFields orig m
+      let mD := { m with next := m.next.eraseDups, refs := m.refs.eraseDups }
+      let s := { s with lastT := some (al, kind, toBuffer mD == ob && consistent, (changedFields orig mD).isEmpty) }
       let untouched := fields.isEmpty && keyF == "0" && sigF == "0"
       let resigned := fields.isEmpty && keyF == "2" && sigF == "2"
       if untouched then s.spec "untamperedVerifies" implOk s!"{al} {kind}"
@@ -128,6 +138,21 @@ def handleSign (s : SSt) (line : String) : SSt :=
         { (s.emit s!"KNOWN C07 payload-invalid-utf8-collision line={s.lineNo} hist={s.hist} entry={al} kind={kind} field={",".intercalate fields}")
             with known := s.known + 1 }
       else s.spec "tamperDetected" false s!"{al} {kind} changed={",".intercalate fields} key={keyF} sig={sigF} verify={verify}"
+  | ["TK", al, kind, verify] =>
+    -- the same field mutation replayed on the entry created through the link-encrypting codec: the
+    -- sealed links are a function of the other signed fields, so the verdict must be the plain one
+    match s.lastT with
+    | some (al', kind', predicted, unchanged) =>
+      if al' != al || kind' != kind then s.diff "keyed-mutation-out-of-order" s!"{al'} {kind'}" s!"{al} {kind}" else
+      let s := s.count "cmp:verify-keyed"
+      let s := if verify == "panic" then s.spec "verifyDoesNotPanic" false s!"{al} {kind} (link key)" else s
+      if unchanged then s.spec "untamperedVerifiesKeyed" (verify == "ok") s!"{al} {kind}"
+      else if predicted then
+        -- equal signed view although a field changed (the known UTF-8 collision of the plain codec): the
+        -- keyed codec also derives its nonce from the raw bytes, so it may well detect it — either is fine
+        s.count s!"keyed-collision:{verify}"
+      else s.spec "tamperDetectedKeyed" (verify != "ok") s!"{al} {kind} verify={verify} (link-encrypting codec)"
+    | none => s.diff "keyed-mutation-without-plain" "" al
   | _ => s
 
 end Driver
